@@ -129,6 +129,47 @@ fn site_of(file: &str, line: u32) -> String {
     }
 }
 
+static SAVED_STDOUT: std::sync::atomic::AtomicI32 = std::sync::atomic::AtomicI32::new(-1);
+
+/// The repository prints progress lines with `println!` (e.g. "Waking up and shutting down");
+/// during exploration that would be millions of lines. Redirects fd 1 to /dev/null and keeps the
+/// original for the verdict lines (see [`out`]).
+pub fn quiet_stdout() {
+    use std::os::fd::AsRawFd;
+    unsafe {
+        let saved = libc::dup(1);
+        if saved < 0 {
+            return;
+        }
+        if let Ok(f) = std::fs::OpenOptions::new().write(true).open("/dev/null") {
+            libc::dup2(f.as_raw_fd(), 1);
+            SAVED_STDOUT.store(saved, std::sync::atomic::Ordering::SeqCst);
+        }
+    }
+}
+
+/// Writes a line to the real standard output.
+pub fn out(line: &str) {
+    let fd = SAVED_STDOUT.load(std::sync::atomic::Ordering::SeqCst);
+    if fd < 0 {
+        println!("{line}");
+    } else {
+        let mut s = line.to_string();
+        s.push('\n');
+        unsafe {
+            let b = s.as_bytes();
+            let mut off = 0;
+            while off < b.len() {
+                let n = libc::write(fd, b[off..].as_ptr() as *const libc::c_void, b.len() - off);
+                if n <= 0 {
+                    break;
+                }
+                off += n as usize;
+            }
+        }
+    }
+}
+
 pub fn threads() -> usize {
     std::env::var("VERIF_THREADS")
         .ok()
